@@ -331,11 +331,11 @@ def cases(rng, tier):
     for n in range(maxlen + 1):
         for t in itertools.product(alpha, repeat=n):
             pat = "".join(t)
-            for name in (names[:6] if quick else names[:2] if n == 4 else names):
+            for name in (names[:6] if quick else names[:1] if n == 4 else names):
                 yield {"kind": "fn", "name": name, "pat": pat}
     # random bracket expressions
     calpha = "abcdz-!]^[\\&~|09"
-    for _ in range(1500 if quick else 8000):
+    for _ in range(1500 if quick else 6000):
         body = "".join(rng.choice(calpha) for _ in range(rng.randint(0, 7)))
         pat = rng.choice(["", "a", "*"]) + "[" + body + "]" + rng.choice(["", "b", "*", "?"])
         name = "".join(rng.choice(calpha + "ab") for _ in range(rng.randint(0, 3)))
